@@ -174,6 +174,9 @@ func mkWinRow(o wop, keyed bool) map[string]any {
 			}
 		case "91":
 			m["k"] = ""
+		case "92", "93", "94":
+			// numeric keys that differ only beyond float32 precision (every JSON number is a float64)
+			m["k"] = winNumKeys[o.key]
 		default:
 			m["k"] = o.key
 		}
@@ -218,9 +221,19 @@ func rowKey(r types.Row) string {
 			}
 			return s
 		}
+		if f, ok := v.(float64); ok {
+			for tok, x := range winNumKeys {
+				if x == f {
+					return tok
+				}
+			}
+			return fmt.Sprintf("num:%v", f)
+		}
 	}
 	return "90"
 }
+
+var winNumKeys = map[string]float64{"92": 1700000001, "93": 1700000002, "94": 16777217.5}
 
 // runWin executes ops on the real window and returns the trace of observable events in
 // execution order: "a id ts" / "n id" adds, "k" tick or processing-time trigger, "db w" a
